@@ -27,6 +27,108 @@ const OTHER: &str = "did:example:other";
 const BOUND_ISS: i64 = 1_700_000_000;
 const BOUND_EXP: i64 = 1_650_000_000;
 
+/// Nonce values of either side (the protected header that is signed / JwsVerificationOptions::nonce). Index 0 = no nonce.
+/// All strings are pairwise different byte sequences (asserted at start-up), so two indices match iff they are equal.
+/// Families of near-misses: the base "challenge-1" with leading/trailing SP, HT, LF, CR, CRLF, NBSP, other Unicode spaces, NEL,
+/// zero-width characters, a NUL suffix, letter-case variants, a look-alike hyphen, one string a prefix of the other; the empty
+/// string next to whitespace-only / NUL-only strings; canonically / compatibly equivalent Unicode spellings.
+const NONCES: [&str; 44] = [
+  "", // placeholder of index 0 (absent); never used as a value
+  "a",
+  "b",
+  "", // 3: present but empty
+  " ",
+  "challenge-1", // 5: base
+  "challenge-1 ",
+  " challenge-1",
+  "\tchallenge-1",
+  "challenge-1\t",
+  "challenge-1\n",
+  "\nchallenge-1",
+  "challenge-1\r",
+  "challenge-1\r\n",
+  "challenge-1\u{a0}",
+  "\u{a0}challenge-1",
+  "Challenge-1",
+  "CHALLENGE-1",
+  "challenge-1\0",
+  "challenge-",
+  "challenge-12",
+  "\t",
+  "\n",
+  "\u{a0}",
+  "  ",
+  "caf\u{e9}",      // 25: NFC
+  "cafe\u{301}",    // 26: NFD of 25
+  "\u{fb01}x",      // 27: ligature fi
+  "fix",            // 28: NFKC of 27
+  "challenge\u{2010}1", // 29: HYPHEN instead of HYPHEN-MINUS
+  "challenge-1\u{200b}", // 30: zero-width space
+  "\u{feff}challenge-1", // 31: BOM / ZWNBSP
+  "\u{2003}challenge-1", // 32: EM SPACE
+  "challenge-1\u{3000}", // 33: IDEOGRAPHIC SPACE
+  "challenge-1\u{85}",   // 34: NEL
+  "\0",
+  " challenge-1 ", // 36: both ends
+  "challenge -1", // 37: inner space
+  "\r\n",
+  "\u{2028}challenge-1", // 39: LINE SEPARATOR
+  "challenge-1\u{1680}", // 40: OGHAM SPACE MARK
+  "\u{b}challenge-1",    // 41: VT
+  "challenge-1\u{c}",    // 42: FF
+  "\u{0}challenge-1",    // 43: NUL prefix
+];
+/// Indices of the "challenge-1" family (the base and its near-misses).
+const NONCE_FAMILY_BASE: [u8; 30] = [5, 6, 7, 8, 9, 10, 11, 12, 13, 14, 15, 16, 17, 18, 19, 20, 29, 30, 31, 32, 33, 34, 36, 37, 39, 40, 41, 42, 43, 3];
+/// Indices of the empty / whitespace-only family (0 = absent).
+const NONCE_FAMILY_BLANK: [u8; 9] = [0, 3, 4, 21, 22, 23, 24, 35, 38];
+/// Look-alike Unicode spellings and letter-case variants of short strings.
+const NONCE_FAMILY_UNICODE: [u8; 6] = [25, 26, 27, 28, 1, 2];
+
+fn nonce_value(i: u8) -> Option<&'static str> {
+  match i {
+    0 => None,
+    i => Some(NONCES[i as usize]),
+  }
+}
+
+/// Coarse relation of the signed nonce to the expected one (for the distinct-class descriptor and counters only; the oracle is
+/// byte equality of the two optional strings).
+fn nonce_relation(h: u8, o: u8) -> &'static str {
+  match (nonce_value(h), nonce_value(o)) {
+    (None, None) => "none",
+    (Some(_), None) => "unexpected",
+    (None, Some(_)) => "missing",
+    (Some(a), Some(b)) if a == b => {
+      if h <= 2 {
+        "eq"
+      } else {
+        "eq-special"
+      }
+    }
+    (Some(a), Some(b)) => {
+      let strip = |s: &str| -> String { s.chars().filter(|c| !(c.is_whitespace() || c.is_control() || matches!(c, '\u{200b}' | '\u{feff}'))).collect() };
+      if strip(a) == strip(b) {
+        if strip(a) == a {
+          "invisible-on-expected"
+        } else if strip(b) == b {
+          "invisible-on-signed"
+        } else {
+          "invisible-both"
+        }
+      } else if a.to_lowercase() == b.to_lowercase() {
+        "case"
+      } else if a.starts_with(b) || b.starts_with(a) {
+        "prefix"
+      } else if (h >= 25 && h <= 29) || (o >= 25 && o <= 29) {
+        "lookalike"
+      } else {
+        "different"
+      }
+    }
+  }
+}
+
 fn k1() -> Key {
   Key::ed(11)
 }
@@ -70,8 +172,8 @@ struct Plan {
   method_id_override: u8, // 0 none, 1 = signing method, 2 = another method, 3 = missing method, 4 holder#kf, 5/6 look-alike DID,
                           // 7 did:example:other#frag, 8 did:example:foreign#frag
   scope: u8,              // 0 None, 1 VerificationMethod, 2 Authentication, 3 AssertionMethod, 4 KeyAgreement
-  nonce_hdr: u8,
-  nonce_opt: u8,
+  nonce_hdr: u8,          // index into NONCES (0 = no nonce member in the signed protected header)
+  nonce_opt: u8,          // index into NONCES (0 = no nonce configured)
   iss: u8,                // 0 holder DID, 1 foreign DID, 2 other DID, 3 https URL, 4 holder DID with a path (not a plain DID)
   exp: Option<i64>,       // delta to bound; None absent
   issuance: u8,           // 0 absent, 1 nbf, 2 iat, 3 both (nbf decides)
@@ -257,7 +359,8 @@ impl Plan {
         }
       }
     }
-    if self.nonce_hdr != self.nonce_opt {
+    // matching nonce: the signed one and the expected one are the same optional byte string
+    if nonce_value(self.nonce_hdr) != nonce_value(self.nonce_opt) {
       f.push("nonce");
     }
     if self.iss != 0 {
@@ -474,14 +577,8 @@ fn build(rng: &mut Rng, p: &Plan, other: u8) -> Built {
     }
     _ => {}
   }
-  match p.nonce_hdr {
-    1 => {
-      h.insert("nonce".into(), json!("a"));
-    }
-    2 => {
-      h.insert("nonce".into(), json!("b"));
-    }
-    _ => {}
+  if let Some(n) = nonce_value(p.nonce_hdr) {
+    h.insert("nonce".into(), json!(n));
   }
   let header = Value::Object(h);
   let signer = match p.sig {
@@ -504,11 +601,11 @@ fn build(rng: &mut Rng, p: &Plan, other: u8) -> Built {
   rng.shuffle(&mut order);
   for step in order {
     match step {
-      0 => match p.nonce_opt {
-        1 => vo = vo.nonce("a"),
-        2 => vo = vo.nonce("b"),
-        _ => {}
-      },
+      0 => {
+        if let Some(n) = nonce_value(p.nonce_opt) {
+          vo = vo.nonce(n);
+        }
+      }
       1 => {
         if let Some(sc) = p.scope_value() {
           vo = vo.method_scope(sc);
@@ -575,8 +672,34 @@ fn mutate_one(rng: &mut Rng, p: &mut Plan, which: u64) {
     }
     3 => p.scope = 1 + rng.below(6) as u8,
     4 => {
-      p.nonce_hdr = rng.below(3) as u8;
-      p.nonce_opt = (p.nonce_hdr + 1 + rng.below(2) as u8) % 3;
+      // two different nonces (one of them possibly absent): plain ones, or two members of one near-miss family
+      let fam: &[u8] = match rng.below(8) {
+        0 | 1 => &[0, 1, 2],
+        2 | 3 | 4 => &NONCE_FAMILY_BASE,
+        5 => &NONCE_FAMILY_BLANK,
+        6 => &NONCE_FAMILY_UNICODE,
+        _ => &[],
+      };
+      if fam.is_empty() {
+        p.nonce_hdr = rng.below(NONCES.len() as u64) as u8;
+        p.nonce_opt = (p.nonce_hdr as u64 + 1 + rng.below(NONCES.len() as u64 - 1)) as u8 % NONCES.len() as u8;
+      } else {
+        let a = rng.usize(fam.len());
+        let b = (a + 1 + rng.usize(fam.len() - 1)) % fam.len();
+        p.nonce_hdr = fam[a];
+        p.nonce_opt = fam[b];
+        // half of the family pairs put the base value on one side (the near-miss on the other, either way round)
+        if fam.len() > 3 && rng.bool() {
+          let base = fam[0];
+          if p.nonce_hdr != base && p.nonce_opt != base {
+            if rng.bool() {
+              p.nonce_hdr = base;
+            } else {
+              p.nonce_opt = base;
+            }
+          }
+        }
+      }
     }
     5 => p.iss = 1 + rng.below(7) as u8,
     6 => p.exp = Some(*rng.pick(&[-1i64, -2, -1_000_000])),
@@ -607,7 +730,8 @@ fn mutate_one(rng: &mut Rng, p: &mut Plan, which: u64) {
       p.frac = 0;
     }
     11 => {
-      p.nonce_hdr = 1 + rng.below(2) as u8;
+      // the same nonce on both sides (legal variation), any value of the table incl. empty / whitespace / non-ASCII ones
+      p.nonce_hdr = if rng.bool() { 1 + rng.below(2) as u8 } else { 1 + rng.below(NONCES.len() as u64 - 1) as u8 };
       p.nonce_opt = p.nonce_hdr;
     }
     12 => {
@@ -649,9 +773,21 @@ impl Cx {
     if p.frac != 0 {
       self.rep.inc("fractional_date_cases");
     }
+    let nrel = nonce_relation(p.nonce_hdr, p.nonce_opt);
     let case = json!({"plan": format!("{:?}", p), "other_method": Plan::method_id(other), "token": b.token, "falsified": falsified,
+      "nonce_signed": nonce_value(p.nonce_hdr), "nonce_expected": nonce_value(p.nonce_opt), "nonce_relation": nrel,
       "options": serde_json::to_value(&b.options).unwrap_or(Value::Null)});
-    self.rep.distinct("nontrivial", &format!("{}|m{}|kid{}|ovr{}|sc{}|iss{}|is{}|d{}{}|x{}", falsified.join("+"), p.method, p.kid, p.method_id_override, p.scope, p.iss, p.issuance, p.dup_id, p.dup_holder, p.date_extreme * 10 + p.frac));
+    self.rep.distinct("nontrivial", &format!("{}|m{}|kid{}|ovr{}|sc{}|iss{}|is{}|d{}{}|x{}|n{}", falsified.join("+"), p.method, p.kid, p.method_id_override, p.scope, p.iss, p.issuance, p.dup_id, p.dup_holder, p.date_extreme * 10 + p.frac, nrel));
+    self.rep.distinct("nonce_pairs", &format!("{}/{}", p.nonce_hdr, p.nonce_opt));
+    if !matches!(nrel, "none" | "eq") {
+      self.rep.inc(&format!("nonce_cases:{}", nrel));
+    }
+    // the configured nonce must have arrived in the options as given (harness-side sanity of the options hand-over; when the
+    // JSON form of the options does not carry the string through, the scenario would be judged against another expectation)
+    if b.options.presentation_verifier_options.nonce.as_deref() != nonce_value(p.nonce_opt) {
+      self.rep.inc("options_nonce_not_carried_through");
+      return;
+    }
     self.rep.distinct("condition_vectors", &falsified.join("+"));
     let validator = JwtPresentationValidator::with_signature_verifier(EdDSAJwsVerifier::default());
     let jwt_obj = Jwt::new(b.token.clone());
@@ -770,6 +906,39 @@ fn dangling_reference_probes(args: &Args, scale: u64, cx: &mut Cx, rng: &mut Rng
   }
 }
 
+/// Directed table: signed nonce x expected nonce as independent dimensions over the whole NONCES table (absent, empty,
+/// whitespace-only, the base value and its near-misses on either side). Everything else holds, so the verdict must be
+/// accept <=> the two optional strings are byte-equal. At reduced scale: every value against the base and the empty string on
+/// either side, plus the diagonal.
+fn nonce_pair_probes(args: &Args, scale: u64, cx: &mut Cx, rng: &mut Rng) {
+  let full = scale >= 1000;
+  let n = NONCES.len() as u8;
+  let mut index = 0u64;
+  for h in 0..n {
+    for o in 0..n {
+      if !full {
+        let keep = (o == 5 && h % 2 == 0) || (h == 5 && o % 4 == 1) || (o == 3 && NONCE_FAMILY_BLANK.contains(&h)) || (h == o && h % 8 == 3);
+        if !keep {
+          continue;
+        }
+      }
+      index += 1;
+      if !args.mine(index) {
+        continue;
+      }
+      let mut p = Plan::all_good(rng);
+      p.nonce_hdr = h;
+      p.nonce_opt = o;
+      p.normalize();
+      cx.rep.inc("nonce_pair_probes");
+      if h == o && h > 2 {
+        cx.rep.inc("nonce_pair_probes:equal-special");
+      }
+      cx.scenario(rng, &p);
+    }
+  }
+}
+
 /// Directed table: every fractional / astronomically large numeric date on every claim position it can decide.
 fn fractional_date_probes(args: &Args, scale: u64, cx: &mut Cx, rng: &mut Rng) {
   let mut index = 0u64;
@@ -801,6 +970,12 @@ fn fractional_date_probes(args: &Args, scale: u64, cx: &mut Cx, rng: &mut Rng) {
 fn main() {
   let args = Args::parse();
   let scale = args.extra_u64("scale", 1000);
+  // the nonce table must consist of pairwise different byte strings (index equality == string equality)
+  for i in 1..NONCES.len() {
+    for j in i + 1..NONCES.len() {
+      assert!(NONCES[i] != NONCES[j], "harness nonce table: entries {} and {} are equal", i, j);
+    }
+  }
   let mut cx = Cx { rep: Report::new("C03"), doc: holder_doc() };
   cx.rep.rule(
     "scenarios constructed by the harness: an all-conditions-true plan (method of the holder document incl. an embedded one and a \
@@ -810,7 +985,11 @@ fn main() {
      that share the fragment of an own method outside that relationship; a directed table names the own method by every kid / method-id \
      spelling (full own id, '#frag', 'frag', the dangling reference's id) under those scopes and unscoped. Date claims also appear as \
      JSON numbers that are not integers (1.5, 1e30, 253402300800.5, bound +- a fraction). \
-     distinct = (falsified vector, method, kid form, override, scope, iss form, issuance form, duplicates, date extreme / fraction)",
+     The signed nonce and the expected nonce are independent values of one table (absent, empty, whitespace-only, a base value and its \
+     near-misses: leading/trailing SP HT LF CR CRLF VT FF NBSP NEL Unicode spaces, zero-width characters, NUL prefix/suffix, letter case, \
+     look-alike and normalisation-equivalent spellings, prefixes); every pair of the table is run with all other conditions true, and \
+     random pairs are combined with the other defects; nonce matches <=> the two optional strings are byte-equal. \
+     distinct = (falsified vector, method, kid form, override, scope, iss form, issuance form, duplicates, date extreme / fraction, nonce relation)",
   );
   let mut rng = args.rng(3);
   let n = (if args.thorough { 12_000_000u64 } else { 6_000 } * scale / 1000 / args.nshards).max(60);
@@ -840,5 +1019,6 @@ fn main() {
   }
   dangling_reference_probes(&args, scale, &mut cx, &mut rng);
   fractional_date_probes(&args, scale, &mut cx, &mut rng);
+  nonce_pair_probes(&args, scale, &mut cx, &mut rng);
   cx.rep.finish();
 }
